@@ -8,6 +8,7 @@ import pendulum
 from pendulum.duration import Duration
 from pendulum.parsing import _Interval
 from pendulum.parsing import parse as base_parse
+from pendulum.parsing.exceptions import ParserError
 from pendulum.tz.timezone import UTC
 
 
@@ -116,15 +117,18 @@ def _parse(
         return parsed
 
     if RustDuration is not None and isinstance(parsed, RustDuration):
-        return pendulum.duration(
-            years=parsed.years,
-            months=parsed.months,
-            weeks=parsed.weeks,
-            days=parsed.days,
-            hours=parsed.hours,
-            minutes=parsed.minutes,
-            seconds=parsed.seconds,
-            microseconds=parsed.microseconds,
-        )
+        try:
+            return pendulum.duration(
+                years=parsed.years,
+                months=parsed.months,
+                weeks=parsed.weeks,
+                days=parsed.days,
+                hours=parsed.hours,
+                minutes=parsed.minutes,
+                seconds=parsed.seconds,
+                microseconds=parsed.microseconds,
+            )
+        except OverflowError:
+            raise ParserError(f"Unable to parse string [{text}]")
 
     raise NotImplementedError
